@@ -76,6 +76,27 @@ def body(resp):
         return txt
 
 
+class StreamOverflow(Exception):
+    pass
+
+
+def read_stream(resp, max_chunks=5000):
+    """body text of a (possibly streamed) response; a stream that does not end within max_chunks is an error, not a hang"""
+    parts = []
+    n = 0
+    for chunk in resp.iter_encoded():
+        parts.append(chunk)
+        n += 1
+        if n > max_chunks:
+            resp.close()
+            raise StreamOverflow("response stream did not end within %d chunks" % max_chunks)
+    txt = b"".join(parts).decode("utf-8")
+    try:
+        return json.loads(txt)
+    except Exception:
+        return txt
+
+
 def auth(token):
     return {"Authorization": "Bearer %s" % token} if token else {}
 
